@@ -572,10 +572,17 @@ class Spec:
                 yield from g(random.Random(rng.getrandbits(48)), tier)
 
     def classify(self, case, m):
+        api = case.split(" ", 1)[0]
         for name, p in self.parts:
             f = p.get("classify")
             if f:
-                r = f(case, m)
+                # a part classifies its own apis; it may not understand others'
+                if p.get("oracles") and api not in p["oracles"]:
+                    continue
+                try:
+                    r = f(case, m)
+                except Exception:
+                    r = None
                 if r is not None:
                     return r
         return "other"
@@ -721,6 +728,19 @@ class Check:
                 obligations.append({"theorem": t, "file": pf + ".v", "discharged": bool(okk), "axioms": ax, "note": note[:300]})
                 if not okk:
                     broken.append((t, note[:300]))
+        if self.tier == "thorough" and getattr(spec, "COQ_PROPS", []) and not broken:
+            # second opinion: the independent checker re-checks the compiled
+            # property files and everything they depend on
+            try:
+                rc, out, err = run(["coqchk", "-o", "-silent", "-Q", "theories", "VV", "-Q", "gen", "VVgen"]
+                                   + ["VV." + pf for pf in spec.COQ_PROPS], cwd=COQ, timeout=3000)
+                m = re.search(r"\* Axioms:(.*?)\n\s*\n\* Constants", out + err, re.S)
+                axs = [a.strip() for a in (m.group(1).split("\n") if m else []) if a.strip() and a.strip() != "<none>"]
+                cov["coqchk"] = {"rc": rc, "axioms_of_loaded_libraries": axs}
+                if rc != 0:
+                    broken.append(("coqchk", (out + err)[-400:]))
+            except Exception as e:  # noqa
+                cov["coqchk"] = {"error": str(e)[-300:]}
         cov["obligations"] = len(obligations)
         cov["discharged"] = sum(1 for o in obligations if o["discharged"])
         cov["theorems"] = obligations
@@ -819,12 +839,25 @@ class Check:
                 env = {"ASAN_OPTIONS": "detect_leaks=0:abort_on_error=1:handle_segv=0:handle_abort=0:allocator_may_return_null=1",
                        "UBSAN_OPTIONS": "print_stacktrace=0:halt_on_error=0"}
             crc, cout, cerr = run_driver(binary, cases, env=env)
-            if len(cout) != len(cases):
-                # the driver died; find where
-                idx = len(cout)
-                bad = cases[idx] if idx < len(cases) else cases[-1]
-                oracle_fail.append((cfgname, bad, "driver process died (rc=%s) %s" % (crc, cerr[-300:]), ""))
-                cout = cout + [""] * (len(cases) - len(cout))
+            deaths = 0
+            while len(cout) < len(cases) and deaths < 25:
+                # the driver process died (e.g. heap corruption that the
+                # SIGSEGV handler cannot turn into a fault= token): blame the
+                # case it died on and carry on with the next one
+                deaths += 1
+                if cout and cout[-1].endswith("fault=abort") and crc == 4:
+                    # the driver reported the abort for its last case itself and stopped
+                    idx = len(cout) - 1
+                else:
+                    idx = len(cout)
+                    oracle_fail.append((cfgname, cases[idx], "driver process died on this case (rc=%s) %s" % (crc, cerr[-300:].replace("\n", " ")), ""))
+                    cout.append("%s -> fault=died" % cases[idx])
+                if idx + 1 < len(cases):
+                    crc, more, cerr2 = run_driver(binary, cases[idx + 1:], env=env)
+                    cout += more
+                    cerr += cerr2
+            if len(cout) < len(cases):
+                cout = cout + ["%s -> fault=not-run" % c for c in cases[len(cout):]]
             cov["evaluations"] += len(cases)
             ubsan = len(re.findall(r"runtime error:", cerr))
             if ubsan:
@@ -838,6 +871,8 @@ class Check:
                     faults += 1
                 msg = None
                 orc = spec.ORACLES.get(api)
+                if ckv.get("fault") in ("died", "not-run"):
+                    orc = None
                 if orc:
                     try:
                         msg = orc(args, ckv)
@@ -992,6 +1027,12 @@ def replay(prop, path):
             print("VIOLATION property=%s replay=%s no-failing-input-found" % (prop, path))
             return 1
         return 0
+    api0 = case.split(" ", 1)[0]
+    if api0 not in spec.ORACLES or case.startswith("--") or obj.get("config") in ("tsan", "vg", "oom"):
+        # found by a custom runner (threads / histories / allocation plans):
+        # the replay is the runner itself on the current tree with the same seed
+        print("replay: re-running the %s runner with seed %s" % (prop, obj.get("seed")))
+        return Check(prop, obj.get("tier") or "quick", obj.get("seed", 0)).run()
     ok, lg, mdrv, _ = coq_setup()
     b, d = build_c_driver(obj.get("config") or "pinned", getattr(spec, "EXTRA_CFLAGS", ""))
     try:
